@@ -984,9 +984,10 @@ func main() {
 		type passOut struct {
 			implC, selStrings []string
 			clean             bool
+			texts             [][]string // per policy: Selector, then (Src, Dst) of every inbound / outbound rule
 		}
 		runPass := func(order []int) passOut {
-			po := passOut{implC: make([]string, len(w.nps)), clean: true}
+			po := passOut{implC: make([]string, len(w.nps)), clean: true, texts: make([][]string, len(w.nps))}
 			for _, idx := range order {
 				np := w.nps[idx]
 				kvp, _ := conv.K8sNetworkPolicyToCalico(np) // a conversion error only drops rules; the KVPair is still returned
@@ -1005,9 +1006,11 @@ func main() {
 				}
 				pol := out[0].Value.(*model.Policy)
 				po.selStrings = append(po.selStrings, pol.Selector)
+				po.texts[idx] = []string{pol.Selector}
 				for _, rs := range [][]model.Rule{pol.InboundRules, pol.OutboundRules} {
 					for _, ru := range rs {
 						po.selStrings = append(po.selStrings, ru.SrcSelector, ru.DstSelector)
+						po.texts[idx] = append(po.texts[idx], ru.SrcSelector, ru.DstSelector)
 					}
 				}
 				s, c := cpolicy(pol)
@@ -1043,7 +1046,7 @@ func main() {
 		for _, po := range passes {
 			dup := false
 			for _, q := range distinct {
-				if strings.Join(q.implC, "|") == strings.Join(po.implC, "|") && q.clean == po.clean {
+				if strings.Join(q.implC, "|") == strings.Join(po.implC, "|") && q.clean == po.clean && fmt.Sprint(q.texts) == fmt.Sprint(po.texts) {
 					dup = true
 				}
 			}
@@ -1089,8 +1092,29 @@ func main() {
 				evalsC = append(evalsC, fmt.Sprintf("(%s, %s)", cnode(sel.Root()), clist(bs)))
 			}
 
-			coq := fmt.Sprintf("(Build_case %s (Build_cluster %s %s) %s %s %s %v %v %s %s)",
-				clist(npsC), clist(clusterC), clist(sasC), clist(profilesC), clist(podsC), clist(implC), clean, infer, clist(connsC), clist(evalsC))
+			// selector strings: table of distinct strings + indices
+			var table, idxC []string
+			tindex := map[string]int{}
+			for _, ts := range po.texts {
+				if ts == nil {
+					continue
+				}
+				var is []string
+				for _, t := range ts {
+					j, ok := tindex[t]
+					if !ok {
+						j = len(table)
+						tindex[t] = j
+						table = append(table, cb(t))
+					}
+					is = append(is, fmt.Sprintf("%d%%nat", j))
+				}
+				idxC = append(idxC, clist(is))
+			}
+
+			coq := fmt.Sprintf("(Build_case %s (Build_cluster %s %s) %s %s %s %v %v %s %s %s %s)",
+				clist(npsC), clist(clusterC), clist(sasC), clist(profilesC), clist(podsC), clist(implC), clean, infer, clist(connsC), clist(evalsC),
+				clist(table), clist(idxC))
 			var tl []string
 			for t := range tags {
 				tl = append(tl, t)
